@@ -5,8 +5,13 @@ CONSTANTS
   MaxSelDepth = 3
   ActNames = {"Remove","Empty","SetVr","Set","SetStr","SetIfMissing","SetStrIfMissing","Replace","ReplaceStr","PushStr","PushI32","PushU32","PushI16","PushU16","PushF32","PushF64","Truncate"}
   Inits = {"empty", "seeded"}
-  MaxLen = 1
+  MaxLen = 3
   Mode = "bfs"
+  DeepLeafTags = {"T", "S"}
+  DeepStepTags = {"S", "U"}
+  DeepSelDepth = 2
+  DeepActNames = {"Remove","Empty","Set","SetStr","PushStr","PushU16","Truncate"}
+  DeepInits = {"empty"}
 SPECIFICATION GSpec
 VIEW View
 CHECK_DEADLOCK FALSE
